@@ -301,6 +301,42 @@ def factory(base, suffix):
 print(B().who(), B.make(), B().p, factory(B, "x")().who()[1][1:])
 print(B().tagged("t", "u", z=1), B().after("!"))
 ''',
+    "class_hooks": '''
+def deco(f):
+    def wrapped(*a, **k):
+        return ('deco', f(*a, **k))
+    return wrapped
+class Base:
+    subs = []
+    @classmethod
+    def __init_subclass__(cls, tag=None, **kw):
+        super().__init_subclass__(**kw)
+        Base.subs.append((cls.__name__, tag))
+class A(Base, tag='a'):
+    pass
+class Plain:
+    seen = []
+    def __init_subclass__(cls, **kw):
+        Plain.seen.append(cls.__name__)
+    def __class_getitem__(cls, key):
+        return (cls.__name__, key)
+class P2(Plain):
+    pass
+class T2:
+    @classmethod
+    def __class_getitem__(cls, key):
+        return (cls.__name__, key)
+class T3:
+    @deco
+    def __class_getitem__(cls, key):
+        return (cls.__name__, key)
+    @deco
+    def __init_subclass__(cls, **kw):
+        T3.last = cls.__name__
+class T4(T3):
+    pass
+print(Base.subs, Plain.seen, Plain[1], P2['k'], T2[2], T3[3], T3.last)
+''',
     "class_body_scope": '''
 x = 'global'
 def f():
